@@ -264,6 +264,12 @@ func (db *DB) startAsyncWritesRoutine(s *Schema) {
 					n, async, enabled := db.safeAsyncWState(s)
 					if !enabled {
 						db.Lock()
+						// async writes may have been enabled again by Create while
+						// we were waiting for the lock, the routine must then go on
+						if s.asyncWritesEnabled() {
+							db.Unlock()
+							continue
+						}
 						s.routineStarted = false
 						db.Unlock()
 						return
